@@ -20,23 +20,8 @@ fn pk_str(pk: &[u8]) -> String {
     }
 }
 
-async fn flush(n: usize) -> bool {
-    let before = vh::UPDATES_FLUSHED.load(SeqCst);
-    vh::FLUSH_GEN.fetch_add(1, SeqCst);
-    let mut verif_bumped = Instant::now();
-    let deadline = Instant::now() + Duration::from_secs(30);
-    while vh::UPDATES_FLUSHED.load(SeqCst) < before + n as u64 {
-        if verif_bumped.elapsed() > Duration::from_millis(1500) {
-            // a loop that started after the bump took the bumped value as its baseline: bump again
-            vh::FLUSH_GEN.fetch_add(1, SeqCst);
-            verif_bumped = Instant::now();
-        }
-        if Instant::now() > deadline {
-            return false;
-        }
-        tokio::time::sleep(Duration::from_millis(3)).await;
-    }
-    true
+async fn flush(ids: &[uuid::Uuid]) -> bool {
+    crate::util::flush_loops(ids, 60).await
 }
 
 fn take_sent() -> Vec<String> {
@@ -74,6 +59,7 @@ pub fn upd(t: &mut Toks) -> String {
         let mut b = c11::new_node().await;
         let mut sent = 0usize;
         let mut listeners: Vec<(String, tokio::sync::mpsc::Receiver<NotifyEvent>)> = vec![];
+        let mut listener_ids: Vec<uuid::Uuid> = vec![];
         let mut outs = vec![];
         for op in ops {
             match op {
@@ -89,12 +75,16 @@ pub fn upd(t: &mut Toks) -> String {
                         continue;
                     }
                     for tn in c11::TNAME {
-                        let (_h, created) = a
+                        let (h_, created) = a
                             .kit
                             .agent
                             .updates_manager()
                             .get_or_insert(tn, &a.kit.agent.schema().read(), a.kit.agent.pool(), a.kit.tripwire.clone())
                             .expect("listener");
+                        {
+                            use klukai_types::updates::Handle;
+                            listener_ids.push(h_.id());
+                        }
                         listeners.push((tn.to_string(), created.expect("fresh listener").evt_rx));
                     }
                     take_sent();
@@ -104,7 +94,7 @@ pub fn upd(t: &mut Toks) -> String {
                     if listeners.is_empty() {
                         continue;
                     }
-                    let ok = flush(listeners.len()).await;
+                    let ok = flush(&listener_ids).await;
                     let mut notes = vec![];
                     for (tn, rx) in listeners.iter_mut() {
                         while let Ok(e) = rx.try_recv() {
@@ -172,15 +162,16 @@ pub fn evict(t: &mut Toks) -> String {
         }});
         tx.send(send(vec![(0, 3)])).await.unwrap();
         tokio::time::sleep(Duration::from_millis(50)).await;
-        let ok1 = flush(1).await;
+        let hid = [h.id()];
+        let ok1 = flush(&hid).await;
         for chunk in (1..=nother).collect::<Vec<_>>().chunks(500) {
             tx.send(send(chunk.iter().map(|k| (*k, 1)).collect())).await.unwrap();
         }
         tokio::time::sleep(Duration::from_millis(100)).await;
-        let ok2 = flush(1).await;
+        let ok2 = flush(&hid).await;
         tx.send(send(vec![(0, 2)])).await.unwrap();
         tokio::time::sleep(Duration::from_millis(50)).await;
-        let ok3 = flush(1).await;
+        let ok3 = flush(&hid).await;
         tokio::time::sleep(Duration::from_millis(100)).await;
         reader.abort();
         let notes = notes.lock().unwrap().clone();
